@@ -64,10 +64,21 @@ func (d *driver) replayOf(e *Exchange, ci crashInfo) map[string]any {
 	return map[string]any{
 		"listener": e.Seed.Listener, "seed": e.Seed.Name, "transport": e.Seed.Transport, "port_index": e.Seed.Port,
 		"mutation": e.Mut.String(), "exchange_id": e.ID, "tier": d.r.Tier, "messages": msgs, "then": "half-close / close",
+		"worker_configuration": e.Seed.kind(d.r.Thorough()).String(),
 		"crash": ci.Text, "exit": ci.Exit,
-		"how": "start the harness binary with -worker -base <port> -dir <tmpdir>, send the messages in order to 127.0.0.1:<port+port_index>" +
+		"how": "start the harness binary with -worker -base <port> -dir <tmpdir>" + map[bool]string{true: " -world open (anonymous clients may read the path 'live', which has a live stream, and publish below 'pub/')"}[e.Seed.Open] +
+			", send the messages in order to 127.0.0.1:<port+port_index>" +
+			map[bool]string{true: "; placeholders (" + echoNames(e.Seed) + ") are replaced by what the server answered before, as a client does"}[len(e.Seed.Echo) > 0] +
 			map[bool]string{true: "; SRT: bytes 44..47 of the conclusion are replaced by the cookie of the server's induction answer before the mutation is applied", false: ""}[e.Seed.Transport == tSRT],
 	}
+}
+
+func echoNames(s *Seed) string {
+	var n []string
+	for _, e := range s.Echo {
+		n = append(n, e.Placeholder)
+	}
+	return strings.Join(n, ", ")
 }
 
 func printable(b []byte) string {
@@ -108,18 +119,20 @@ type lane struct {
 	d       *driver
 	id      int
 	w       *Worker
+	kind    workerKind // the configuration the lane's worker must have for what it is running now
+	tlsOK   bool       // the lane may run workers with TLS listeners (inotify instances are scarce)
 	retired bool
 }
 
 func (l *lane) tryEnsure() error {
-	if l.w != nil && l.w.alive() {
+	if l.w != nil && l.w.alive() && l.w.kind == l.kind {
 		return nil
 	}
 	if l.w != nil {
 		l.w.kill()
 		l.w = nil
 	}
-	w, err := startWorker()
+	w, err := startWorker(l.kind)
 	if err != nil {
 		return err
 	}
@@ -374,7 +387,8 @@ func (l *lane) process(set []*Exchange, slow bool) int {
 
 // runChunk runs a chunk to completion, attributing every death to one exchange. It returns false when the lane could
 // not obtain a worker before anything of the chunk was run (the chunk is then given to another lane).
-func (l *lane) runChunk(chunk []*Exchange) bool {
+func (l *lane) runChunk(chunk []*Exchange, kind workerKind) bool {
+	l.kind = kind
 	if err := l.tryEnsure(); err != nil {
 		l.d.r.Note("lane %d retired: %v", l.id, err)
 		return false
@@ -418,6 +432,7 @@ func allSeeds(thorough bool) []*Seed {
 	all = append(all, srtSeeds()...)
 	all = append(all, udpSeeds()...)
 	all = append(all, moqSeeds()...)
+	all = append(all, openSeeds()...)
 	var out []*Seed
 	for _, s := range all {
 		if s.Thorough && !thorough {
@@ -464,43 +479,87 @@ func driverMain() {
 		}
 		seeds = f
 	}
-	// phase 0 = every seed unmutated; phase 1 = the mutants, interleaved over the seeds so that every lane talks to
-	// every listener
+	// phase 0 = every seed unmutated; phase 1 = the mutants, interleaved over the seeds of one worker configuration so
+	// that every lane talks to every listener
+	type kindList struct {
+		kind    workerKind
+		perSeed [][]*Exchange
+	}
+	var kinds []*kindList
+	kindOf := map[workerKind]*kindList{}
 	var phase0 []*Exchange
-	perSeed := make([][]*Exchange, len(seeds))
 	id := 0
-	for si, s := range seeds {
-		enumerate(s, alphabet, stride, func(m Mut) {
+	nAlt := 0
+	for _, s := range seeds {
+		k := s.kind(thorough)
+		kl := kindOf[k]
+		if kl == nil {
+			kl = &kindList{kind: k}
+			kindOf[k] = kl
+			kinds = append(kinds, kl)
+		}
+		var mine []*Exchange
+		enumerate(s, alphabet, stride, !thorough, func(m Mut) {
 			e := &Exchange{ID: id, Seed: s, Mut: m}
 			id++
+			if m.Kind == mAlt {
+				nAlt++
+			}
 			if m.Kind == mSeed {
 				phase0 = append(phase0, e)
 			} else {
-				perSeed[si] = append(perSeed[si], e)
+				mine = append(mine, e)
 			}
 		})
+		kl.perSeed = append(kl.perSeed, mine)
 	}
-	var phase1 []*Exchange
-	for k := 0; ; k++ {
-		any := false
-		for si := range perSeed {
-			if k < len(perSeed[si]) {
-				phase1 = append(phase1, perSeed[si][k])
-				any = true
+	// a chunk is a set of exchanges for one worker configuration
+	type chunk struct {
+		kind workerKind
+		ex   []*Exchange
+	}
+	var chunks0, chunks1 []*chunk
+	for _, e := range phase0 {
+		chunks0 = append(chunks0, &chunk{kind: e.Seed.kind(thorough), ex: []*Exchange{e}})
+		d.perListen[e.Seed.Listener+map[bool]string{true: "@open"}[e.Seed.Open]]++
+	}
+	nPhase1 := 0
+	perWorld := map[string]int{}
+	for _, kl := range kinds {
+		var list []*Exchange
+		for k := 0; ; k++ {
+			any := false
+			for si := range kl.perSeed {
+				if k < len(kl.perSeed[si]) {
+					list = append(list, kl.perSeed[si][k])
+					any = true
+				}
+			}
+			if !any {
+				break
 			}
 		}
-		if !any {
-			break
+		for _, e := range list {
+			d.perListen[e.Seed.Listener+map[bool]string{true: "@open"}[e.Seed.Open]]++
+		}
+		nPhase1 += len(list)
+		perWorld[kl.kind.String()] += len(list)
+		for lo := 0; lo < len(list); lo += *flagChunk {
+			hi := lo + *flagChunk
+			if hi > len(list) {
+				hi = len(list)
+			}
+			chunks1 = append(chunks1, &chunk{kind: kl.kind, ex: list[lo:hi]})
 		}
 	}
-	for _, e := range append(append([]*Exchange(nil), phase0...), phase1...) {
-		d.perListen[e.Seed.Listener]++
+	for _, e := range phase0 {
+		perWorld[e.Seed.kind(thorough).String()]++
 	}
-	total := len(phase0) + len(phase1)
+	total := len(phase0) + nPhase1
 
 	// every TLS listener of a worker costs two inotify instances (certificate watchers), a per-user resource (128):
-	// the quick tier has no seed for them and runs workers without, the thorough tier uses fewer, fuller workers
-	workerTLS = thorough
+	// the quick tier runs workers without them, except a few lanes whose workers get the RTSPS listener for the seeds
+	// that need it; the thorough tier uses fewer, fuller workers
 	nl := *flagLanes
 	if nl <= 0 {
 		nl = 2 * runtime.GOMAXPROCS(0)
@@ -511,9 +570,13 @@ func driverMain() {
 			nl = 10
 		}
 	}
+	tlsLanes := nl
+	if !thorough && tlsLanes > 6 {
+		tlsLanes = 6
+	}
 	lanes := make([]*lane, nl)
 	for i := range lanes {
-		lanes[i] = &lane{d: d, id: i}
+		lanes[i] = &lane{d: d, id: i, tlsOK: i < tlsLanes}
 	}
 	defer func() {
 		for _, l := range lanes {
@@ -523,17 +586,47 @@ func driverMain() {
 		}
 	}()
 
-	fmt.Printf("C35 %s: %d seeds, %d exchanges (%d unmutated + %d single-deviation mutants), %d lanes\n", r.Tier, len(seeds), total, len(phase0), len(phase1), nl)
+	fmt.Printf("C35 %s: %d seeds, %d exchanges (%d unmutated + %d single-deviation mutants, %d of them structure-aware), %d lanes, per worker configuration %v\n",
+		r.Tier, len(seeds), total, len(phase0), nPhase1, nAlt, nl, perWorld)
 
 	var retired atomic.Int64
-	runPhase := func(list []*Exchange, chunkSize int) {
-		nchunks := (len(list) + chunkSize - 1) / chunkSize
-		queue := make(chan int, nchunks+1)
-		for c := 0; c < nchunks; c++ {
-			queue <- c
-		}
+	// runPhase hands the chunks out to the lanes. A lane prefers chunks for the configuration its worker already has
+	// (a change of configuration is a worker restart); lanes that may hold TLS listeners take the chunks that need
+	// them first.
+	runPhase := func(list []*chunk) {
+		var qmu sync.Mutex
+		pending := append([]*chunk(nil), list...)
 		var remaining atomic.Int64
-		remaining.Store(int64(nchunks))
+		remaining.Store(int64(len(list)))
+		var busy atomic.Int64
+		take := func(l *lane) *chunk {
+			qmu.Lock()
+			defer qmu.Unlock()
+			score := func(c *chunk) int {
+				switch {
+				case c.kind.TLS > 0 && !l.tlsOK:
+					return 0
+				case c.kind.TLS > 0 && !thorough:
+					return 3
+				case l.w != nil && c.kind == l.w.kind:
+					return 2
+				}
+				return 1
+			}
+			best, bs := -1, 0
+			for i, c := range pending {
+				if sc := score(c); sc > bs {
+					best, bs = i, sc
+				}
+			}
+			if best < 0 {
+				return nil
+			}
+			c := pending[best]
+			pending = append(pending[:best], pending[best+1:]...)
+			busy.Add(1)
+			return c
+		}
 		var wg sync.WaitGroup
 		for _, l := range lanes {
 			if l.retired {
@@ -543,18 +636,19 @@ func driverMain() {
 			go func(l *lane) {
 				defer wg.Done()
 				for remaining.Load() > 0 {
-					var c int
-					select {
-					case c = <-queue:
-					case <-time.After(100 * time.Millisecond):
+					c := take(l)
+					if c == nil {
+						if busy.Load() == 0 {
+							return // what is left cannot be run by this lane and nobody will add to it
+						}
+						time.Sleep(100 * time.Millisecond)
 						continue
 					}
-					lo, hi := c*chunkSize, (c+1)*chunkSize
-					if hi > len(list) {
-						hi = len(list)
-					}
-					if !l.runChunk(list[lo:hi]) {
-						queue <- c
+					if !l.runChunk(c.ex, c.kind) {
+						qmu.Lock()
+						pending = append(pending, c)
+						qmu.Unlock()
+						busy.Add(-1)
 						l.retired = true
 						if int(retired.Add(1)) == len(lanes) {
 							harnessFail("no lane can start a worker any more")
@@ -562,21 +656,42 @@ func driverMain() {
 						return
 					}
 					remaining.Add(-1)
+					busy.Add(-1)
 				}
 			}(l)
 		}
 		wg.Wait()
+		if remaining.Load() > 0 {
+			// the lanes that may run these chunks have retired
+			harnessFail("%d chunks could not be given to any lane (the lanes allowed to hold TLS listeners cannot start workers)", remaining.Load())
+		}
 	}
 
 	// phase 0: every seed unmutated, one by one (a seed that kills the worker is identified at once and its mutants
 	// are not run)
-	runPhase(phase0, 1)
+	runPhase(chunks0)
 	fmt.Printf("C35: phase 0 done, %d deaths so far, %.1fs\n", d.deaths.Load(), time.Since(startTime).Seconds())
 
 	// phase 1: chunks of mutants handed out to the lanes
-	runPhase(phase1, *flagChunk)
+	runPhase(chunks1)
 	r.Set("lanes_retired", retired.Load())
+	r.Set("structure_aware_mutants", nAlt)
+	r.Set("exchanges_per_worker_configuration", perWorld)
+	phase1 := make([]*Exchange, 0, nPhase1)
+	for _, c := range chunks1 {
+		phase1 = append(phase1, c.ex...)
+	}
 
+	if *flagShow {
+		var ks []string
+		for k, n := range d.classes {
+			ks = append(ks, fmt.Sprintf("%s x%d", k, n))
+		}
+		sort.Strings(ks)
+		for _, k := range ks {
+			fmt.Println("CLASS", k)
+		}
+	}
 	// ---- evidence ----
 	respClasses := map[string]bool{}
 	for k, n := range d.classes {
